@@ -5,6 +5,7 @@ import (
 	"go/constant"
 	"go/token"
 	"go/types"
+	"os"
 	"sort"
 	"strings"
 
@@ -12,6 +13,8 @@ import (
 )
 
 const objBase = 1000000
+
+var debugOn = os.Getenv("CFFVC_DEBUG") != ""
 
 // ModelFn models an external function. It returns the result value (nil
 // for none) and true if it handled the call.
@@ -351,7 +354,10 @@ func (x *Exec) initialState(fn *ssa.Function, spec *FuncSpec) *State {
 			// captured struct variable: model as heap object
 			ref := x.Ctx.Fresh("fv."+fv.Name(), SInt)
 			s.Assume(Gt(ref, IntLit(0)))
-			f.Free = append(f.Free, &PtrVal{Ref: ref, Base: pt.Elem(), Typ: pt.Elem()})
+			spv := &PtrVal{Ref: ref, Base: pt.Elem(), Typ: pt.Elem()}
+			f.Free = append(f.Free, spv)
+			f.Vars[fv.Name()] = spv
+			f.VarAddr[fv.Name()] = true
 			continue
 		}
 		init := s.freshValue("fv0."+fv.Name(), pt.Elem())
@@ -446,6 +452,9 @@ func (x *Exec) execUntilFork(s *State) []*State {
 			unsupported("fell off block %d of %s", f.Block.Index, f.Fn.Name())
 		}
 		instr := f.Block.Instrs[f.Idx]
+		if debugOn {
+			fmt.Fprintf(os.Stderr, "[%p d=%d] %s.%d.%d: %s   panic=%v\n", s, len(s.Frames), f.Fn.Name(), f.Block.Index, f.Idx, instr, s.Panic != nil)
+		}
 		forks := x.step(s, f, instr)
 		if forks != nil {
 			return forks
